@@ -243,7 +243,7 @@ func (h *Handler) handleQuery(r *http.Request, w http.ResponseWriter, query *cal
 	}
 	cf, err := decodeCompFilter(&query.Filter.CompFilter)
 	if err != nil {
-		return err
+		return &internal.HTTPError{Code: http.StatusBadRequest, Err: err}
 	}
 	q.CompFilter = *cf
 
